@@ -1,4 +1,4 @@
-"""ROOT-module part of the codec checks C01 C04 C06 C07 C11 C13 (the properties quantify over "both module generations").
+"""ROOT-module part of the codec checks C01 C04 C06 C07 C10 C11 C13 C16 (the properties quantify over "both module generations").
 
     rootmode.run_root(run, mode, tier, seed)
 
@@ -10,7 +10,9 @@ is called by a check AFTER its v2 part, with the check's own lib.Run: it
   3. feeds every oracle failure into run.fail_input with the signature prefixed `root:` (known findings of the root module are
      listed in known_findings.json under the check's property id with that prefix),
   4. evaluates the cases with Corr/RootCorr.v (model on the flattened family environment, root tables of Gen/TablesCodec.v;
-     encoders modulo the order of object members, decoders exactly) - a disagreement is a broken correspondence,
+     encoders modulo the order of object members, decoders exactly; modes c10 / c16: Corr/RootHashCorr.v / Corr/RootKeySetCorr.v,
+     the hash / equality / key-set models on the flattened environment with the root fnv parameters) - a disagreement is a broken
+     correspondence,
   5. stores the coverage under run.cov["root_module"].
 It never raises: a failure to build or run is recorded in run.broken (verdict: VIOLATION ... no-failing-input-found unless an
 oracle failure was found too).
@@ -26,6 +28,12 @@ from lib import *
 ROOT_CORR = "corr:root-module (model on the flattened family environment vs the bindings of the ROOT generator: encoders modulo " \
             "member order, decoders exactly)"
 
+ROOT_CORR_BY_MODE = dict(
+    c10="corr:root-module hash+equals (Hash/Fnv.v, Hash/Equals.v on the flattened environment with the root fnv parameters vs the generated "
+        "ComputeHash / Equals of the ROOT generator)",
+    c16="corr:root-module keyset (Hash/KeySet.v with the root hash / equality / ROR2 key texts vs the root batchkeyset and "
+        "restlidata.BatchResponse.UnmarshalWithKeyLocator)")
+
 ROOT_TRUSTED = (
     "root module generation (github.com/PapaCharlie/go-restli): the same family is pushed through the REAL root generator "
     "(cmd.GenerateCode on the spec format of the root spec parser: included records flattened, includedFrom = declaring record - the "
@@ -40,8 +48,24 @@ ROOT_TRUSTED = (
 # (harness/rootdrv/root_patch.go) belong to C11 and C07, as mode c11p does in the v2 part (checks/patchmode.py)
 EXTRA_MODES = dict(c11=["c11p"], c07=["c11p"])
 
-QUICK_SHARDS = dict(c01=12, c04=120, c06=12, c07=9, c11=9, c13=6)
-THOROUGH_SHARDS = dict(c01=150, c04=1200, c06=200, c07=160, c11=120, c13=100)
+QUICK_SHARDS = dict(c01=12, c04=120, c06=12, c07=9, c11=9, c13=6, c10=22, c16=36)
+THOROUGH_SHARDS = dict(c01=150, c04=1200, c06=200, c07=160, c11=120, c13=100, c10=200, c16=300)
+
+# the correspondence glue of each mode (default Corr/RootCorr.vo): C10 and C16 have their own case formats (Corr/HashCorr.v,
+# Corr/KeySetCorr.v), read for the root module by Corr/RootHashCorr.v / Corr/RootKeySetCorr.v
+# (c16: the cases files also import Corr/RootCorr.vo for the flattened codec environment, which depends on Gen/FamEnv.v)
+CORR_VO = dict(c10=["Corr/RootHashCorr.vo"], c16=["Corr/RootCorr.vo", "Corr/RootKeySetCorr.vo"])
+
+ROOT_TRUSTED_HASH = (
+    "root module, C10 / C16: fnv1a/hasher.go, restli/equals/*.go and restli/batchkeyset/{generic,primitive}.go of the root module are the v2 "
+    "files (the translator compares the fnv1a and equals sources on every run and reads the root constants: Hash.Fnv.root_params; "
+    "batchkeyset and restlidata.BatchResponse.UnmarshalWithKeyLocator were diffed when this was built: set.go assembles the ids parameter "
+    "with NewRestLiQueryParamsWriter+WriteParams instead of BuildQueryParams, unknown reply members are skipped directly instead of through "
+    "NoSuchFieldErr); the root generator's ComputeHash / Equals fold / compare ALL flattened fields of a record in spec order (no "
+    "hash.Add(included.ComputeHash())) and its complex key is the record [$params, key fields...]: the models Hash/Fnv.v, Hash/Equals.v, "
+    "Hash/KeySet.v are instantiated on the flattened environment with the complex-key order (Corr/RootHashCorr.v hflat_env / hflat_value, "
+    "Corr/RootKeySetCorr.v); the theorems of Props/C10.v and Props/C16.v quantify over ALL schemas (henv) and both parameter sets are "
+    "proved equal by the translator flags, so they cover the flattened environment as an instance")
 
 
 def _pick(shards, limit):
@@ -60,6 +84,11 @@ def run_root(run, mode, tier, seed, timeout=3000, replay=None):
                              "(v2 module); the root module generation: see the root-module entry below") for t in run.trusted]
     if ROOT_TRUSTED not in run.trusted:
         run.trusted.append(ROOT_TRUSTED)
+    if mode in ("c10", "c16"):
+        run.trusted = [t.replace("the root module's generated code (its fnv1a and equals packages are compared textually by the translator / are identical)",
+                                 "the root module's generated code: see the root-module entries below") for t in run.trusted]
+        if ROOT_TRUSTED_HASH not in run.trusted:
+            run.trusted.append(ROOT_TRUSTED_HASH)
     try:
         work = os.path.join(run.work, "rootmod")
         os.makedirs(work, exist_ok=True)
@@ -85,7 +114,7 @@ def run_root(run, mode, tier, seed, timeout=3000, replay=None):
         model_ok = not any(b.kind in ("translator", "model") for b in run.broken)
         if model_ok and rep.get("shards"):
             try:
-                coq_make(["Corr/RootCorr.vo"])
+                coq_make(CORR_VO.get(mode, ["Corr/RootCorr.vo"]))
             except Broken as b:
                 b.kind = "model"
                 raise
@@ -101,7 +130,7 @@ def run_root(run, mode, tier, seed, timeout=3000, replay=None):
                     nmis += 1
                     if nmis <= 3:
                         c = cases["cases"][k * cases["per"] + i]
-                        run.broken.append(Broken("correspondence", ROOT_CORR,
+                        run.broken.append(Broken("correspondence", ROOT_CORR_BY_MODE.get(mode, ROOT_CORR),
                                                  json.dumps(dict(module="root", first_disagreeing_case=c,
                                                                  model_results_for_shard=rtxt[:2000]), default=str)))
             cov.update(correspondence_cases=ncases, correspondence_cases_total=len(cases["cases"]),
@@ -151,6 +180,8 @@ def post(mode, then=None):
 # checks/c11.py         import rootmode;  patchmode.run("C11", ..., base=dict(...), post=rootmode.post("c11"))   (also runs root mode c11p)
 # checks/c04.py         import rootmode;  last line of its own post():   rootmode.run_root(run, "c04", tier, seed)
 # checks/c06.py         import rootmode;  last line of its own post():   rootmode.run_root(run, "c06", tier, seed)
+# checks/c10.py         import rootmode;  c10.run(..., post=None) passes post=post to run_check;  main: post=rootmode.post("c10")
+# checks/c16.py         import rootmode;  c10.run("C16", "c16", ..., post=rootmode.post("c16"))
 # checks/roottest.py is the stand-alone runner used while this was built (ROOT_PID=C01 ./check roottest); delete it once wired.
 def post_chain(*posts):
     def cb(run, rep, out):
